@@ -38,6 +38,7 @@ void *ldb_realloc(void *ptr, size_t size) {
   if (ptr == NULL) abort();
   return ptr;
 }
+void *vp_realloc_ptrs(void *ptr, size_t size) { return ldb_realloc(ptr, size); }
 void ldb_free(void *ptr) { if (ptr != NULL) free(ptr); }
 
 #else
@@ -80,6 +81,27 @@ ldb_realloc(void *ptr, size_t size) {
     free((uint8_t *)ptr - __CPROVER_POINTER_OFFSET(ptr));
   }
 
+  return np;
+}
+
+#ifndef VP_VEC_CAP
+#define VP_VEC_CAP 8
+#endif
+
+void *
+vp_realloc_ptrs(void *ptr, size_t size) {
+  void **np;
+  size_t i;
+
+  __CPROVER_assert(size <= VP_VEC_CAP * sizeof(void *), "vp-model: vector larger than VP_VEC_CAP");
+
+  if (ptr != NULL)
+    return ptr;
+
+  np = (void **)malloc(VP_VEC_CAP * sizeof(void *));
+  __CPROVER_assume(np != NULL);
+  for (i = 0; i < VP_VEC_CAP; i++)
+    np[i] = NULL;
   return np;
 }
 
